@@ -152,9 +152,6 @@ impl Case {
         }
         s
     }
-    fn uses_tk_reachable(&self, gi: usize, f: &dyn Fn(TK) -> bool) -> bool {
-        self.comps[gi].iter().any(|(b, t)| f(*t) || self.uses_tk_reachable(*b, f))
-    }
     fn uses_nonexport(&self, gi: usize) -> bool {
         self.comps[gi].iter().any(|(b, _)| !self.export[*b])
     }
@@ -1371,6 +1368,13 @@ fn replay(path: &std::path::Path) -> ! {
             println!("source: {}", c.label());
         }
     }
+    if let Ok(dir) = std::env::var("C12_KEEP") {
+        // leave the source behind for a run of the product binary
+        match d.write_designspace(std::path::Path::new(&dir)) {
+            Ok(p) => println!("source written to {} (options: {})", p.display(), ox.cli_args().join(" ")),
+            Err(e) => println!("cannot write the source to {dir}: {e}"),
+        }
+    }
     if v["key"].as_str().is_some_and(|k| k.starts_with("build-fails")) {
         // whether this build fails depends on HashMap iteration order inside the compiler: every
         // compile on this thread sees other hash keys, so try a number of them
@@ -1468,6 +1472,13 @@ fn main() {
     // but costs ~30 ms of per-thread initialisation inside the compiler. VERIF_JOBS bounds how many lanes
     // run at a time.
     let permits = Permits::new(vcore::ncores());
+    // safety cap on wall time (never reached on an idle 16-core machine: quick ~15 s, thorough ~10 min)
+    let cap_s: f64 = std::env::var("C12_CAP_S")
+        .ok()
+        .and_then(|s| s.parse().ok())
+        .unwrap_or(args.tier.pick(600.0, 5400.0));
+    let t0 = std::time::Instant::now();
+    let skipped = std::sync::atomic::AtomicUsize::new(0);
     let lane_fn = |lane: usize| {
         let mut st = Stats::default();
         let mut viol: Vec<(String, String, Value)> = vec![];
@@ -1477,6 +1488,10 @@ fn main() {
         let mut seen = BTreeSet::new();
         for idx in (lane..total_cases).step_by(LANES) {
             let _permit = permits.acquire();
+            if t0.elapsed().as_secs_f64() > cap_s {
+                skipped.fetch_add(1, std::sync::atomic::Ordering::Relaxed);
+                continue;
+            }
             let case = &cases[idx];
             let d = build_design(case);
             let sk: Vec<usize> = if idx % skrifa_every == 0 { vec![0, (idx / skrifa_every) % 16] } else { vec![] };
@@ -1497,6 +1512,10 @@ fn main() {
                         format!("{}:{cname}", x.class)
                     }
                     ("build-fails", _) => format!("build-fails:{}", slug(&x.what)),
+                    ("duplicate-contour-dropped" | "source-duplicate-contour-dropped", Some(gi)) => {
+                        // one mechanism whatever the configuration and transform: key on the glyph kind only
+                        format!("{}:{}", x.class, case.kind_label(gi))
+                    }
                     (_, Some(gi)) => {
                         format!("{}:{cname}:{}:{}", x.class, case.transform_label(gi), case.kind_label(gi))
                     }
@@ -1555,13 +1574,11 @@ fn main() {
     // how the enumerated sources exercise the alphabet (structural, from the case list)
     let mut by_tk: BTreeMap<String, u64> = BTreeMap::new();
     for c in &cases[..total_cases] {
-        let top = c.n - 1;
         for t in ALL_TK {
             if (1..c.n).any(|gi| c.comps[gi].iter().any(|(_, x)| *x == t)) {
                 *by_tk.entry(t.name().to_string()).or_default() += 1;
             }
         }
-        let _ = (top, c.uses_tk_reachable(top, &|t| t.forced()));
     }
     rep.set("evaluations", total.compiles);
     rep.set("cases", total.cases);
@@ -1575,7 +1592,11 @@ fn main() {
     rep.set("cases_using_transform", serde_json::to_value(&by_tk).unwrap());
     rep.set("spaces", notes);
     rep.set("samples", samples);
-    rep.set("exhaustive", only.is_none());
+    let skipped = skipped.load(std::sync::atomic::Ordering::Relaxed);
+    rep.set("exhaustive", only.is_none() && skipped == 0);
+    if skipped > 0 {
+        rep.set("cap", format!("wall-time cap of {cap_s} s hit: {skipped} of {total_cases} cases not run"));
+    }
     if only.is_some() {
         rep.set("cap", format!("C12_LIMIT={total_cases} of {} cases", cases.len()));
     }
